@@ -7,7 +7,8 @@
    the slice-descriptor loads th (none for fixed arrays), the length it compares against,
    the base address, the failure message and the element type.  [it]/[iv] are the index's
    integer type and bit pattern, [mk] its optional side effect, [nl] the no_load flag. *)
-From Capy Require Import Common.Util Model.IndexCheck Spec.IndexCheckSpec Proofs.IndexCheckProofs.
+From Capy Require Import Common.Util Model.IndexCheck Model.IndexCheckFixed Spec.IndexCheckSpec
+  Proofs.IndexCheckProofs Proofs.IndexCheckFixedProofs.
 Open Scope Z_scope.
 
 (* An index >= length (any unsigned index type of at most 64 bits, element not zero-sized):
@@ -176,6 +177,127 @@ Print Assumptions C10_unwrap_full_refuted_by_wide_discriminant.
 Theorem C10_discriminants_fit_in_tag_refuted : ~ C10_discrims_fit_full.
 Proof. exact C10_discrims_fit_full_refuted. Qed.
 Print Assumptions C10_discriminants_fit_in_tag_refuted.
+
+(* ---- the lowering with the fix candidates applied (Model/IndexCheckFixed.v) ----
+   [compf fw fz]: fw = C10-1-fix.diff (a wider-than-usize index is compared in its own width),
+   fz = C10-2-fix.diff (zero-sized elements: source and index evaluated, index checked, nothing
+   accessed; a zero-sized array source no longer panics the compiler, finding C10-4).  The check
+   selects the flags by probing the built compiler; the refutations above stay as the history of
+   the unrepaired code, which is [compf false false]. *)
+
+Theorem C10_fixed_model_conservative : forall rd e nl, compf false false rd e nl = comp rd e nl.
+Proof. exact compf_ff. Qed.
+Print Assumptions C10_fixed_model_conservative.
+
+(* out of range => exact abort trace, for every class the applied fixes leave open *)
+Theorem C10_fixed_except_known : forall fw fz rd s it mk iv nl st t1 ov v0 td th len base m et,
+  type_of s = Some st ->
+  compf fw fz rd s false = Ok (t1, Val ov) ->
+  src_val fz ov = Some v0 ->
+  arr_view rd st v0 = Some (td, th, len, base, m, et) ->
+  idx_ty_accepted it = true -> 0 <= iv < 2 ^ ibits it ->
+  known_class_f fw fz it et = None ->
+  len <= ival it iv ->
+  compf fw fz rd (EIndex s it mk iv) nl = Ok (t1 ++ td ++ marker mk ++ th ++ fail_block m, Aborted).
+Proof. exact oob_no_access_f. Qed.
+Print Assumptions C10_fixed_except_known.
+
+(* both fixes applied: the FULL statement (C10_full's shape), no class excluded:
+   every accepted index type (u128 included), every element type (zero-sized included) *)
+Theorem C10_fixed_full : forall rd s it mk iv nl st t1 ov v0 td th len base m et,
+  type_of s = Some st ->
+  compf true true rd s false = Ok (t1, Val ov) ->
+  src_val true ov = Some v0 ->
+  arr_view rd st v0 = Some (td, th, len, base, m, et) ->
+  idx_ty_accepted it = true -> 0 <= iv < 2 ^ ibits it ->
+  len <= ival it iv ->
+  compf true true rd (EIndex s it mk iv) nl =
+    Ok (t1 ++ td ++ marker mk ++ th ++ fail_block m, Aborted).
+Proof. exact oob_no_access_fixed_full. Qed.
+Print Assumptions C10_fixed_full.
+
+Theorem C10_fixed_inbounds_exact_elem : forall fw fz rd s it mk iv nl st t1 ov v0 td th len base m et,
+  type_of s = Some st ->
+  compf fw fz rd s false = Ok (t1, Val ov) ->
+  src_val fz ov = Some v0 ->
+  arr_view rd st v0 = Some (td, th, len, base, m, et) ->
+  is_zero_sized et = false ->
+  0 <= iv < 2 ^ ibits it ->
+  0 <= ival it iv < len ->
+  0 <= base -> 0 < stride et -> base + len * stride et <= two64 ->
+  let addr := base + ival it iv * stride et in
+  base <= addr /\ addr + stride et <= base + len * stride et /\
+  compf fw fz rd (EIndex s it mk iv) nl =
+    (if nl || is_aggregate et
+     then Ok (t1 ++ td ++ marker mk ++ th, Val (Some addr))
+     else Ok (t1 ++ td ++ marker mk ++ th ++ [Load addr (stride et)], Val (Some (rd addr)))).
+Proof. exact inbounds_exact_elem_f. Qed.
+Print Assumptions C10_fixed_inbounds_exact_elem.
+
+(* fz: an in-range index into zero-sized elements is evaluated and checked and touches nothing *)
+Theorem C10_fixed_zero_sized_inbounds_no_access : forall fw rd s it mk iv nl st t1 ov v0 td th len base m et,
+  type_of s = Some st ->
+  compf fw true rd s false = Ok (t1, Val ov) ->
+  src_val true ov = Some v0 ->
+  arr_view rd st v0 = Some (td, th, len, base, m, et) ->
+  is_zero_sized et = true ->
+  0 <= iv < len -> len <= two64 ->
+  compf fw true rd (EIndex s it mk iv) nl = Ok (t1 ++ td ++ marker mk ++ th, Val None).
+Proof. exact inbounds_zero_sized_f. Qed.
+Print Assumptions C10_fixed_zero_sized_inbounds_no_access.
+
+Theorem C10_fixed_write_oob_no_store : forall fw fz rd rd8 s it mk iv vm st t1 ov v0 td th len base m et,
+  type_of s = Some st ->
+  compf fw fz rd s false = Ok (t1, Val ov) ->
+  src_val fz ov = Some v0 ->
+  arr_view rd st v0 = Some (td, th, len, base, m, et) ->
+  idx_ty_accepted it = true -> 0 <= iv < 2 ^ ibits it ->
+  known_class_f fw fz it et = None ->
+  len <= ival it iv ->
+  stmt_runf fw fz rd rd8 (SWrite (EIndex s it mk iv) vm) =
+    Ok (t1 ++ td ++ marker mk ++ th ++ fail_block m, true).
+Proof. exact write_oob_no_store_f. Qed.
+Print Assumptions C10_fixed_write_oob_no_store.
+
+Theorem C10_fixed_write_exact_elem : forall fw fz rd rd8 s it mk iv vm st t1 ov v0 td th len base m et,
+  type_of s = Some st ->
+  compf fw fz rd s false = Ok (t1, Val ov) ->
+  src_val fz ov = Some v0 ->
+  arr_view rd st v0 = Some (td, th, len, base, m, et) ->
+  is_zero_sized et = false ->
+  0 <= iv < 2 ^ ibits it ->
+  0 <= ival it iv < len ->
+  0 <= base -> 0 < stride et -> base + len * stride et <= two64 ->
+  stmt_runf fw fz rd rd8 (SWrite (EIndex s it mk iv) vm) =
+    Ok (t1 ++ td ++ marker mk ++ th ++ marker vm ++
+        [Store (base + ival it iv * stride et) (stride et)], false).
+Proof. exact write_exact_elem_f. Qed.
+Print Assumptions C10_fixed_write_exact_elem.
+
+Theorem C10_fixed_nested_levels : forall fw fz rd ix t a nl,
+  ix <> [] -> is_zero_sized t = false -> shape_ok t ix ->
+  0 <= a -> a + stride t <= two64 ->
+  compf fw fz rd (chain (ERoot t a) ix) nl = Ok (walk_result rd nl (walk t a ix)).
+Proof. exact nested_levels_f. Qed.
+Print Assumptions C10_fixed_nested_levels.
+
+Theorem C10_fixed_abort_is_final : forall fw fz rd rd8 p1 s p2 t1 t,
+  execf fw fz rd rd8 p1 = Ok (t1, false) ->
+  stmt_runf fw fz rd rd8 s = Ok (t, true) ->
+  execf fw fz rd rd8 (p1 ++ s :: p2) = Ok (t1 ++ t, true).
+Proof. exact execf_abort_stops. Qed.
+Print Assumptions C10_fixed_abort_is_final.
+
+(* the witnesses of C10-1, C10-2 and C10-4 on the repaired lowering *)
+Example C10_fixed_witnesses :
+  compf true false (fun _ => 0) (EIndex (ERoot (TArr 4 (TInt 4)) 4096) u128 None (two64 + 1)) false
+    = Ok ([Print MArrayOob; Exit 1], Aborted) /\
+  compf false true (fun _ => 0) (EIndex (ERoot (TArr 2 TZst) 4096) usize (Some 5%N) 7) false
+    = Ok ([Print (MMarker 5); Print MArrayOob; Exit 1], Aborted) /\
+  compf false true (fun a => if a =? 8192 then 2 else if a =? 8200 then 12288 else 0)
+        (EIndex (EIndex (ERoot (TSlice (TArr 0 (TInt 4))) 8192) usize None 1) usize None 0) false
+    = Ok ([Load 8192 8; Load 8200 8; Print MArrayOob; Exit 1], Aborted).
+Proof. repeat split; vm_compute; reflexivity. Qed.
 
 (* ---- non-vacuity ---- *)
 (* [3][4]i32 at 4096, a[1][2] reads 4 bytes at 4096 + 1*16 + 2*4; a[1][4] aborts;
